@@ -11,15 +11,15 @@ import (
 )
 
 func init() {
-	register(&Rule{Name: "PROV-META", Floor: 5, Run: ruleProvMeta,
+	register(&Rule{Name: "PROV-META", Floor: 2, Run: ruleProvMeta,
 		Doc: "metadata is rebuilt from disk: LastConfigUpdate is the modification time of the configuration file, LastBuild that of the artifact file obtained through the filesystem abstraction for the same name that is read, LastConfigHash the decoded hash line of that file, and the artifact is what that file's content decodes to"})
-	register(&Rule{Name: "PROV-ALIAS", Floor: 2, Run: ruleProvAlias,
+	register(&Rule{Name: "PROV-ALIAS", Floor: 1, Run: ruleProvAlias,
 		Doc: "an entity's default alias is its configuration file's base name: the path between the last slash and the last dot, used only when no alias is configured"})
 	register(&Rule{Name: "LINT-USEAFTERCLOSE", Floor: 0, Run: ruleUseAfterClose, Fixture: "fixture.useAfterClose",
 		Doc: "no method other than Close is called on a file after a Close that dominates the call"})
-	register(&Rule{Name: "PROV-EXT", Floor: 4, Run: ruleProvExt,
+	register(&Rule{Name: "PROV-EXT", Floor: 2, Run: ruleProvExt,
 		Doc: "extension lists keep their order through every stage: each loop that fills a list of extensions, builders or profile extensions stores element i at index i (or appends in iteration order), one output per input"})
-	register(&Rule{Name: "PROV-CONTENT", Floor: 14, Run: ruleProvContent,
+	register(&Rule{Name: "PROV-CONTENT", Floor: 7, Run: ruleProvContent,
 		Doc: "every YAML content field is wired to the like-meaning field or constructor argument of the certificate-side structure (no cross-wiring): policy OID, CPS, notice organisation/numbers/text, OCSP location, key identifier, CA flag, path length, naming authority OID/URL/text, profession items/OIDs/registration number/additional info, admission authorities"})
 	register(&Rule{Name: "HASH-KILL", Floor: 5, Run: ruleHashKill,
 		Doc: "before hashing, exactly these fields of the copy are blanked: Alias and Profile always; Validity.From when the start is run-relative or inherited; Validity.Until in that case unless the end was given as an explicit date; nothing else; and the bytes hashed are json.Marshal of that copy with no re-encoding in between"})
@@ -121,7 +121,7 @@ func ruleProvMeta(c *Ctx, r *Rep) {
 			seenStore[fs.st] = true
 			f := fs.field[strings.LastIndex(fs.field, ".")+1:]
 			var o []string
-			for _, x := range pv.Origins(fs.st.Val) {
+			for _, x := range pv.Origins(fs.val()) {
 				if x != "K(nil)" || f != "LastConfigHash" { // a nil stored hash means "none stored"
 					o = append(o, x)
 				}
@@ -171,10 +171,10 @@ func ruleProvAlias(c *Ctx, r *Rep) {
 			}
 			n++
 			fk := c.FuncKey(fn)
-			sl, ok := fs.st.Val.(*ssa.Slice)
+			sl, ok := fs.val().(*ssa.Slice)
 			shape := ""
 			if !ok {
-				shape = "not a sub-string of the path: " + strings.Join(pv.Origins(fs.st.Val), ",")
+				shape = "not a sub-string of the path: " + strings.Join(pv.Origins(fs.val()), ",")
 			} else {
 				base := pv.Origins(sl.X)
 				lowOK, highOK := false, false
